@@ -187,8 +187,9 @@ def ihex_ascending(text):
 
 
 def split_instruction(chunks_, listing):
-    """address of a listing line whose bytes lie in two adjacent chunks of the loaded image (harness plumbing for the attribution
-    of the recorded defect of RetrieveCodeFromChunkList), or None"""
+    """address of a listing line whose bytes lie in two adjacent chunks of the loaded image (records that were not joined while
+    loading: the class of inputs on which RetrieveCodeFromChunkList has to continue a request in the next chunk; counted in the
+    evidence), or None"""
     sp = split_lines(chunks_, listing)
     return min(sp) if sp else None
 
@@ -275,20 +276,24 @@ def layout_4004(rng, items, start, feats, allow_isz_fe):
         if k in ("jun", "jms"):
             it["text"] = "\t%s L%04X" % (k, pick())
         elif k == "jcn":
-            # asl itself rejects a JCN at xFE/xFF whose target is a *forward symbol* in the next page (pass 1 compares the
-            # page of PC+2 with the page of the still unknown symbol); such JCNs get the target as a number
+            # the target lies in the page of PC+2; for a JCN at xFE/xFF that is the following page, i.e. a forward label
             t = pick((it["addr"] + 2) >> 8)
             if t is None:
                 it["text"] = "\tfim r1p,%d" % rng.randrange(256)
-            elif (it["addr"] & 0xff) >= 0xfe:
-                it["text"] = "\tjcn %s,%d" % (cond_text(it["cond"]), t)
-                feats.add("jcn-at-page-end")
             else:
                 it["text"] = "\tjcn %s,L%04X" % (cond_text(it["cond"]), t)
+                if (it["addr"] & 0xff) >= 0xfe:
+                    feats.add("jcn-at-page-end")
+                    if rng.random() < 0.5:
+                        # the same instruction with the target as a number: the source then does not depend on how asl treats the
+                        # forward label, only the listing dasl makes of the image does (it always prints a label)
+                        it["text"] = "\tjcn %s,%d" % (cond_text(it["cond"]), t)
+                        feats.add("jcn-at-page-end-numeric")
         elif k == "isz":
+            # the page of PC+2, as for JCN (since the repair of DecodeISZ; for an ISZ at xFE that is the following page)
             at_fe = (it["addr"] & 0xff) == 0xfe
-            t = pick((it["addr"] + 1) >> 8)
-            if t is None or (at_fe and not allow_isz_fe):
+            t = pick((it["addr"] + 2) >> 8)
+            if t is None:
                 it["text"] = "\tfim r2p,%d" % rng.randrange(256)
             else:
                 it["text"] = "\tisz r%d,L%04X" % (it["reg"], t)
@@ -319,9 +324,16 @@ def gen_4004(rng, feature=None):
     items = gen_items_4004(rng, nblocks, feats)
     start = rng.choice([0, 0x10, 0xf0, 0x1e0, 0x2fd, 0x7f0, 0xd00, 0xe80])
     if feature == "isz-fe":
-        # force an ISZ to sit at xFE with a target in its own page
+        # force an ISZ to sit at xFE: its target lies in the following page
         start = 0x1f0
-        items = [_i("blockstart", 0)] + [_i("plain", 1, "\tnop") for _ in range(14)] + [_i("isz", 2, reg=rng.randrange(16)), _i("plain", 1, "\tbbl 1")]
+        items = [_i("blockstart", 0)] + [_i("plain", 1, "\tnop") for _ in range(14)] + [_i("isz", 2, reg=rng.randrange(16)), _i("plain", 1, "\tnop"), _i("plain", 1, "\tbbl 1")]
+    if feature == "jcn-fe":
+        # a JCN in the last two bytes of a page: its target (page of PC+2) is a label in the following page, a forward reference
+        page = rng.randrange(1, 14)
+        ofs = rng.choice([0xfe, 0xff])
+        start = (page << 8) + ofs - rng.randrange(0, 12)
+        items = ([_i("blockstart", 0)] + [_i("plain", 1, "\tnop") for _ in range((page << 8) + ofs - start)] + [_i("jcn", 2, cond=rng.randrange(1, 16))] +
+                 [_i("plain", 1, "\t%s" % rng.choice(FIX4004)) for _ in range(rng.randrange(1, 6))] + [_i("plain", 1, "\tbbl 1")])
     lines, used, end = layout_4004(rng, items, start, feats, feature == "isz-fe")
     if end >= 0xff0:
         return gen_4004(rng, feature)
@@ -342,6 +354,10 @@ def gen_6800(rng, feature=None):
             imm8 = rng.choice([0, 1, 0x7f, 0x80, 0xff, rng.randrange(256)])
             dirv = rng.choice([0, 1, 0x7f, 0x80, 0xff, rng.randrange(256)])
             extv = rng.choice([0x100, 0x1ff, 0x8000, 0xffff, rng.randrange(0x100, 0x10000)])
+            if rng.random() < 0.12:
+                # extended mode with an address in page 0 (written with `>`; dasl has to print it that way as well)
+                extv = rng.choice([0, 1, 0x7f, 0x80, 0xff, rng.randrange(256)])
+                feats.add("ext-zp")
             if r < 0.22:
                 items.append(_i("plain", 1, "\t%s" % rng.choice(INH68)))
             elif r < 0.36:
@@ -351,7 +367,7 @@ def gen_6800(rng, feature=None):
                 if rng.random() < 0.5:
                     items.append(_i("plain", 2, "\t%s %d,x" % (m, dirv)))
                 else:
-                    items.append(_i("plain", 3, "\t%s $%04x" % (m, extv)))
+                    items.append(_i("plain", 3, "\t%s %s$%04x" % (m, ">" if extv < 0x100 else "", extv)))
             elif r < 0.78:
                 m = rng.choice(ALU68 + ST68)
                 mode = rng.choice(["imm", "dir", "idx", "ext"] if m not in ST68 else ["dir", "idx", "ext"])
@@ -362,7 +378,7 @@ def gen_6800(rng, feature=None):
                 elif mode == "idx":
                     items.append(_i("plain", 2, "\t%s $%02x,x" % (m, dirv)))
                 else:
-                    items.append(_i("plain", 3, "\t%s $%04x" % (m, extv)))
+                    items.append(_i("plain", 3, "\t%s %s$%04x" % (m, ">" if extv < 0x100 else "", extv)))
             elif r < 0.92:
                 m = rng.choice(ALU16 + ST16)
                 mode = rng.choice(["imm", "dir", "idx", "ext"] if m not in ST16 else ["dir", "idx", "ext"])
@@ -373,7 +389,7 @@ def gen_6800(rng, feature=None):
                 elif mode == "idx":
                     items.append(_i("plain", 2, "\t%s $%02x,x" % (m, dirv)))
                 else:
-                    items.append(_i("plain", 3, "\t%s $%04x" % (m, extv)))
+                    items.append(_i("plain", 3, "\t%s %s$%04x" % (m, ">" if extv < 0x100 else "", extv)))
             elif r < 0.96:
                 items.append(_i("jsr", 3))
             else:
@@ -499,7 +515,6 @@ def asm(bdir, wd, name, text, cpu=None):
     return mem_of_pfile(pf), ""
 
 
-SPLIT_SIG = "dasl-instruction-across-hex-chunks"
 ORG_RE = re.compile(rb"^(\s*org\s+)\$([0-9A-Fa-f]+)\s*$", re.M)
 IND_RE = re.compile(rb"^indirect address @ [^\n]*\n", re.M)
 
@@ -760,11 +775,11 @@ def run_batch68(bdir, wd, bi, base, lower, insts):
         img[a - base:a - base + len(bs)] = bs
     bf = os.path.join(wd, "b68_%d.bin" % bi)
     open(bf, "wb").write(bytes(img))
-    eargs = []
-    for a, _ in insts:
-        eargs += ["-entryaddress", str(a)]
-    args = (["-h"] if lower else []) + ["-cpu", "6800", "-binfile", "%s@%d" % (bf, base)] + eargs
-    rc, so, se = common.run_tool(bdir, "dasl", args, wd, timeout=120)
+    # the entry addresses go through a key file (DASCMD=@file): a command line takes at most 256 parameters
+    kf = os.path.join(wd, "b68_%d.key" % bi)
+    open(kf, "w").write("".join("-entryaddress %d\n" % a for a, _ in insts))
+    args = (["-h"] if lower else []) + ["-cpu", "6800", "-binfile", "%s@%d" % (bf, base)]
+    rc, so, se = common.run_tool(bdir, "dasl", args, wd, timeout=120, env={"DASCMD": "@" + kf})
     if rc != 0:
         return None, [], [], ["dasl failed on the 6800 opcode batch at %x: rc=%s %s" % (base, rc, se[-200:])]
     listing = parse_dasl68(so)
@@ -792,23 +807,70 @@ def run_batch68(bdir, wd, bi, base, lower, insts):
 
 
 def probe_cut68(bdir, wd):
-    """6800 instructions cut off by the end of the image / by the end of the address space (raw images, not assembler output):
-    [(name, sig, c15 driver request, info)]"""
+    """raw 6800 images (not assembler output) around RetrieveCodeFromChunkList: an instruction cut off by the end of the image, one
+    that lies in two adjacent chunks, a vector cell that is only half there, an empty image, and an instruction that runs through
+    the end of the address space: [(name, sig, c15 driver request, info)]; sig None = repaired or never defective, must hold"""
     out = []
-    for name, sig, chunks_, entry in (
-            ("cut", "dasl-instruction-cut-at-image-end", [(0x1000, bytes([0x01, 0xb6, 0x12]))], 0x1000),
-            ("wrap", "dasl-instruction-wraps-64k", [(0xfffe, bytes([0xb6, 0x12])), (0x0000, bytes([0x10]))], 0xfffe)):
+    for name, sig, chunks_, entry, need_reasm in (
+            ("cut", None, [(0x1000, bytes([0x01, 0xb6, 0x12]))], "d:4096", True),
+            ("cut2", None, [(0x2000, bytes([0x01, 0xce, 0x12])), (0x2004, bytes([0x39]))], "d:8192", True),
+            ("across", None, [(0x1000, bytes([0xb6, 0x12])), (0x1002, bytes([0x34, 0x39]))], "d:4096", True),
+            ("across3", None, [(0x1002, bytes([0x34])), (0x1000, bytes([0x01, 0xb6])), (0x1003, bytes([0x7e, 0x10, 0x00]))], "d:4096", True),
+            ("vector-cut", None, [(0x1000, bytes([0x01, 0x39, 0x10]))], "v:4098:2:M", False),
+            ("vector-across", None, [(0x1000, bytes([0x01, 0x39, 0x10])), (0x1003, bytes([0x00]))], "v:4098:2:M", True),
+            ("empty", None, [(0, b"")], "d:0", False),
+            # the branch leads into its own second byte: the traced extents overlap, and the listing - which walks the area from its
+            # start - meets at $1002 an instruction that does not fit into the image (das.c leaves the area there); the label in the
+            # middle of an instruction is never defined, so this listing cannot be re-assembled
+            ("listing-cut", None, [(0x1000, bytes([0x20, 0xff, 0xb6, 0x12]))], "d:4096", False),
+            ("wrap", "dasl-instruction-wraps-64k", [(0xfffe, bytes([0xb6, 0x12])), (0x0000, bytes([0x10]))], "d:65534", False)):
         largs = []
         for i, (st, d) in enumerate(chunks_):
             bf = os.path.join(wd, "%s%d.bin" % (name, i))
             open(bf, "wb").write(d)
             largs += ["-binfile", "%s@%d" % (bf, st)]
-        args = ["-cpu", "6800"] + largs + ["-entryaddress", str(entry)]
+        ea = entry[2:] if entry.startswith("d:") else "(%s,%s,MSB)" % tuple(entry.split(":")[1:3])
+        args = ["-cpu", "6800"] + largs + ["-entryaddress", ea]
         rc, so, se = common.run_tool(bdir, "dasl", args, wd, timeout=30)
-        req = "6800 0 %d %s 1 d:%d %d %s %s none" % (len(chunks_), " ".join("%d %s" % (st, d.hex()) for st, d in chunks_), entry,
-                                                    rc if isinstance(rc, int) else 99, so.hex() or "-", se.hex() or "-")
-        out.append((name, sig, req, dict(image=[(st, d.hex()) for st, d in chunks_], entry=entry, dasl_rc=rc,
+        re1 = None
+        if rc == 0 and need_reasm:
+            re1, _err = asm(bdir, wd, "cut_" + name.replace("-", "_") + "_r", so, "6800")
+        req = "6800 0 %d %s 1 %s %d %s %s %s" % (len(chunks_), " ".join("%d %s" % (st, d.hex() or "-") for st, d in chunks_), entry,
+                                                 rc if isinstance(rc, int) else 99, so.hex() or "-", se.hex() or "-",
+                                                 "none" if re1 is None else "%d %s" % (len(re1), " ".join("%d %s" % (a, bytes(d).hex()) for a, d in re1)))
+        out.append((name, sig, req, dict(image=[(st, d.hex()) for st, d in chunks_], entry=entry, dasl_rc=rc, reassembled=re1 is not None, need_reasm=need_reasm,
                                          dasl_stdout=so.decode("latin-1")[:600], dasl_stderr=se.decode("latin-1")[:300])))
+    return out
+
+
+def probe_jcn_fwd(bdir, wd, rng):
+    """`jcn <cond>,<label>` with the label defined further down / further up, in the page of PC+2 / in another page, at the end and
+    in the middle of a page; every probe is a source of its own for the real asl: [(driver request `jcnfwd ...`, description)]"""
+    out = []
+    plans = []
+    for ofs in (0xfc, 0xfd, 0xfe, 0xff, rng.randrange(0, 0xfc)):
+        page = rng.randrange(1, 14)
+        pc = (page << 8) + ofs
+        good = (pc + 2) >> 8
+        plans.append((pc, (good << 8) + rng.randrange(max(0, (pc + 2) - (good << 8)), 256)))          # forward (or at pc+2), valid page
+        plans.append((pc, ((good + 1) << 8) + rng.randrange(256)))                                      # forward, wrong page
+        if (pc >> 8) == good and ofs > 4:
+            plans.append((pc, (good << 8) + rng.randrange(0, ofs - 1)))                                 # backward, valid page
+        plans.append((pc, ((pc >> 8) - 1 << 8) + rng.randrange(256)))                                   # backward, page before
+    for k, (pc, t) in enumerate(plans):
+        if pc <= t < pc + 2:
+            continue
+        m = rng.randrange(1, 16)
+        use = "\torg %d\n\tjcn %s,LT\n" % (pc, cond_text(m))
+        dfn = "\torg %d\nLT:\tnop\n" % t
+        src = "\tcpu 4040\n" + (use + dfn if t > pc else dfn + use)
+        mem, _err = asm(bdir, wd, "jf%d" % k, src)
+        bs = None
+        if mem is not None:
+            flat = {st + i: x for st, d in mem for i, x in enumerate(d)}
+            bs = bytes(flat[pc + i] for i in range(2) if pc + i in flat)
+        out.append(("jcnfwd 1 %d %d %d %s" % (pc, m, t, "none" if bs is None else bs.hex()),
+                    "jcn %s,LT at %03X with LT at %03X -> %s" % (cond_text(m), pc, t, "error" if bs is None else bs.hex())))
     return out
 
 
@@ -837,12 +899,13 @@ def run(args):
     dist = dict(cases=0, cpu4004=0, cpu6800=0, bin=0, hex=0, hexhand=0, hex_not_ascending=0, hex_shapes={}, src_orders={}, hex_split_instruction=0, lower=0, entries={1: 0, 2: 0, 3: 0, 4: 0}, vector=0, embedded_data=0, gap=0,
                 areas_code=0, areas_data=0, bytes_disassembled=0, instructions_traced=0, unchanged_reassembly_ok=0, rewritten=0,
                 sweep_opcodes=0, sweep_reassembled=0, genfail=0, feature_cases=0,
-                sweep68_batches=0, sweep68_instructions=0, sweep68_roundtrip_ok=0, sweep68_known_bad=0, sweep68_opcodes=0, sweep68_labels=0, cut_probes=0)
+                sweep68_batches=0, sweep68_instructions=0, sweep68_roundtrip_ok=0, sweep68_ext_page0=0, sweep68_opcodes=0, sweep68_labels=0, cut_probes=0)
     distinct = set()
     with common.Workdir("c15") as wd:
         plan = []
-        # deliberate feature cases (known-defect classes), then the clean population
-        for f in (("4004", "isz-fe"), ("6800", "des"), ("6800", "ext-zp"), ("6800", "vector"), ("6800", "vector")):
+        # deliberate feature cases (classes in which defects have been found and repaired), then the clean population
+        feature_plan = (("4004", "isz-fe"), ("4004", "jcn-fe"), ("4004", "jcn-fe"), ("6800", "des"), ("6800", "ext-zp"), ("6800", "vector"), ("6800", "vector"))
+        for f in feature_plan:
             plan.append(f)
         for i in range(n):
             plan.append(("4004" if i % 2 == 0 else "6800", "vector" if (i % 2 == 1 and i % 14 == 5) else None))
@@ -858,7 +921,7 @@ def run(args):
         # the order of the ORG blocks in the source (= of the records p2hex writes) and the way the image is handed to dasl; the
         # first cases of every run are the non-ascending p2hex files and the harness-written hex files, for both CPUs
         forced = [(o, l) for o in ("descending", "shuffled", "interleaved") for l in ("hex",)] + [("ascending", "hexhand"), ("descending", "hexhand")]
-        nfeat = 5
+        nfeat = len(feature_plan)
         for i, (cpu, feat) in enumerate(plan):
             c = gen_4004(rng, feat) if cpu == "4004" else gen_6800(rng, feat)
             load = pick_load(rng)
@@ -870,7 +933,7 @@ def run(args):
                     if len(source_segments(c["source"])[1]) >= 3:
                         break
                     c = gen_4004(rng, feat) if cpu == "4004" else gen_6800(rng, feat)
-            if feat == "isz-fe":
+            if feat in ("isz-fe", "jcn-fe"):
                 order = "ascending"
             tag = "gen:%d:%s:%s" % (i, cpu, feat or "-")
             reorder_source(common.rng_for(args.seed, "C15-order:" + tag), c, order)
@@ -894,7 +957,8 @@ def run(args):
         # opcode sweep
         sw = sweep_cases(bdir)
         if args.tier == "quick":
-            sw = [s for s in sw if (s["op"] + args.seed) % 2 == 0 or s["cpu"] == "6800" and s["memo"] in ("dess", "nba", "stab")]
+            # (the 6800 rows that used to be wrong - $14 `nba`, $34 `dess`, $C7 `stab #` - are always part of it if deco68.c knows them)
+            sw = [s for s in sw if (s["op"] + args.seed) % 2 == 0 or s["cpu"] == "6800" and s["op"] in (0x14, 0x34, 0xc7) or s.get("pageend")]
         sreqs, smetas = [], []
         for sc in sw:
             r = run_sweep_case(bdir, wd, sc)
@@ -902,6 +966,7 @@ def run(args):
             smetas.append((sc, r))
         cli_ok, cli_info = probe_cli(bdir, wd)
         cut68 = probe_cut68(bdir, wd)
+        jcnfwd = probe_jcn_fwd(bdir, wd, common.rng_for(args.seed, "C15-jcnfwd"))
         # 6800: every opcode x operand samples, instruction by instruction
         b68_req15, b68_reqs, b68_metas, b68_bases = [], [], [], []
         for bi, (base, lower, insts) in enumerate(batches68(bdir, common.rng_for(args.seed, "C15-68"), args.tier)):
@@ -918,20 +983,17 @@ def run(args):
     a1, a2, a3 = answers[:len(reqs)], answers[len(reqs):len(reqs) + len(sreqs)], answers[len(reqs) + len(sreqs):len(reqs) + len(sreqs) + len(b68_req15)]
     a4 = answers[len(reqs) + len(sreqs) + len(b68_req15):]
     a68 = common.driver("c15_68", b68_reqs, timeout=3600) if ok and b68_reqs else []
+    ajf = common.driver("c15", [q for q, _d in jcnfwd], timeout=600) if ok and jcnfwd else []
 
     def feature_sig(c, kv, r):
+        """signature of a failure by input class - only for classes with a recorded finding (a signature that is listed as fixed
+        suppresses nothing).  Extended operands in page 0, JCN with a forward label at a page end and instructions across two chunks
+        of a hex image have been repaired: no signature, a failure there is a violation."""
         f = c["feats"]
         if "isz-at-xFE" in f:
             return "isz-page-boundary-4004"
         if "des" in f:
             return "deco68-des-printed-dess"
-        if "ext-zp" in f:
-            return "deco68-extended-zero-page"
-        if "jcn-at-page-end" in f and "jump distance too big" in (r["info"].get("reasm_rewritten", "") + r["info"].get("reasm_unchanged", "")):
-            return "jcn-forward-label-page-end-4004"
-        if r["info"].get("split_instruction") is not None and kv.get("text") == "eq" and kv.get("err") == "eq":
-            # dasl behaves exactly as the transcription of the unchanged das.c/codechunks.c, and an instruction lies across two chunks
-            return SPLIT_SIG
         return None
 
     for (c, load, lower, tag, r), ans in zip(metas, a1):
@@ -951,8 +1013,12 @@ def run(args):
         for k in ("vector", "embedded-data", "gap"):
             if k in c["feats"]:
                 dist[k.replace("-", "_")] += 1
-        if c["feats"] & {"isz-at-xFE", "des", "ext-zp"}:
+        if c["feats"] & {"isz-at-xFE", "des", "ext-zp", "jcn-at-page-end"}:
             dist["feature_cases"] += 1
+        for k in ("ext-zp", "jcn-at-page-end"):
+            if k in c["feats"]:
+                dist[k.replace("-", "_")] = dist.get(k.replace("-", "_"), 0) + 1
+        dist["undef_dump_bytes"] = dist.get("undef_dump_bytes", 0) + int(kv.get("undef", 0))
         dist["areas_code"] += int(kv.get("ncode", 0))
         dist["areas_data"] += int(kv.get("ndata", 0))
         dist["bytes_disassembled"] += int(kv.get("nbytes", 0))
@@ -982,11 +1048,10 @@ def run(args):
         if kv.get("bytes") == "fail":
             spec_fail.append(dict(sig=fsig, why="re-assembled bytes differ from the image at address %s" % kv.get("bad"), **common_fields))
         if kv.get("inside") != "ok" or kv.get("disjoint") != "ok":
-            # (a wrongly fetched jump target sends the trace into data / past the end of the image: consequence of SPLIT_SIG)
-            spec_fail.append(dict(sig=fsig if fsig == SPLIT_SIG else None,
+            spec_fail.append(dict(sig=None,
                                   why="reported areas not inside the image / not disjoint: inside=%s disjoint=%s" % (kv.get("inside"), kv.get("disjoint")), **common_fields))
         if kv.get("entry") != "ok":
-            spec_fail.append(dict(sig=fsig if fsig == SPLIT_SIG else None, why="an entry address that lies inside the loaded image is not part of any code area dasl reports "
+            spec_fail.append(dict(sig=None, why="an entry address that lies inside the loaded image is not part of any code area dasl reports "
                                   "(the program was not disassembled starting at its entry points)", **common_fields))
         # (B) model against the real run
         if kv.get("text") != "eq" or kv.get("err") != "eq" or kv.get("rc") != "eq" or kv.get("areas") != "eq" or kv.get("hang") != "0":
@@ -1006,22 +1071,36 @@ def run(args):
             dist["sweep_reassembled"] += 1
         else:
             sweep_bad.append(opname)
-            sig_sw = "sweep-%s-%02X-not-reassemblable" % (sc["cpu"], sc["op"])
-            if sc.get("pageend") in (0xfe, 0xff) and sc["cpu"] == "4004" and (sc["op"] >> 4) == 1:
-                sig_sw = "jcn-forward-label-page-end-4004"    # recorded: code4004.c judges the forward label of a JCN at a page end by its first-pass value
+            sig_sw = "sweep-%s-%02X%s-not-reassemblable" % (sc["cpu"], sc["op"], "-at-%02X" % sc["pageend"] if sc.get("pageend") else "")
             spec_fail.append(dict(sig=sig_sw, tag="sweep:" + opname,
                                   why="opcode %s: dasl prints text that asl rejects or assembles to other bytes (%s)" % (opname, (r["err"] or kv.get("bad", ""))[-200:].strip()),
                                   image=sc["img"].hex(), start=sc["start"], dasl_stdout=r["stdout"]))
-    # ---- 6800: instructions that do not fit into the image
+    # ---- 6800: instructions that do not fit into the image / lie in two chunks; vector cells; the end of the address space
     for (name, sig, _req, info), ans in zip(cut68, a4):
         kv = kv_of(ans)
         dist["cut_probes"] = dist.get("cut_probes", 0) + 1
-        if kv.get("text") != "eq" or kv.get("err") != "eq" or kv.get("areas") != "eq":
+        if info["dasl_rc"] != 0:
+            # the option was rejected (a vector cell that cannot be read): the model has to reject it as well, there is no listing
+            if kv.get("model") != "rejected" or kv.get("rc") != "eq":
+                corr_fail.append(dict(tag="cut68:" + name, why="dasl rejects the -entryaddress option, the Lean model of CMD_EntryAddress does not", **info))
+            continue
+        if kv.get("text") != "eq" or kv.get("err") != "eq" or kv.get("areas") != "eq" or kv.get("rc") != "eq" or kv.get("hang") != "0":
             mt = bytes.fromhex(kv["mtext"]).decode("latin-1") if kv.get("mtext", "-") not in ("-", "") else ""
-            corr_fail.append(dict(tag="cut68:" + name, why="dasl's output for an instruction that does not fit into the image differs from the Lean model",
-                                  model_stdout=mt, **info))
-        if kv.get("inside") != "ok":
+            corr_fail.append(dict(tag="cut68:" + name, why="dasl's output for an image with an instruction / a vector at the end of a chunk differs from the Lean model "
+                                  "(text=%s err=%s areas=%s rc=%s)" % (kv.get("text"), kv.get("err"), kv.get("areas"), kv.get("rc")), model_stdout=mt, **info))
+        if kv.get("inside") != "ok" or kv.get("disjoint") != "ok":
             spec_fail.append(dict(sig=sig, tag="cut68:" + name, why="a reported code area is not inside the loaded image (inside=%s)" % kv.get("inside"), **info))
+        if int(kv.get("undef", 0)):
+            spec_fail.append(dict(sig=sig, tag="cut68:" + name, why="the byte dump of a listing line shows %s byte(s) of memory dasl never wrote" % kv.get("undef"), **info))
+        if info["need_reasm"]:
+            if not info["reassembled"] or kv.get("bytes") != "ok":
+                spec_fail.append(dict(sig=None, tag="cut68:" + name, why="the listing of the image does not re-assemble to the image's bytes on the areas it reports "
+                                      "(re-assembled: %s, bytes=%s bad=%s)" % (info["reassembled"], kv.get("bytes"), kv.get("bad")), **info))
+    for (_q, desc), ans in zip(jcnfwd, ajf):
+        kv = kv_of(ans)
+        dist["jcn_forward_probes"] = dist.get("jcn_forward_probes", 0) + 1
+        if kv.get("enc") != "eq":
+            corr_fail.append(dict(tag="jcnfwd", why="the real asl and the two passes of I4004.encodeF disagree on `%s` (model: %s)" % (desc, kv.get("masm"))))
     # ---- 6800 instruction sweep
     for (base, lower, ninst), ans in zip(b68_bases, a3):
         kv = kv_of(ans)
@@ -1050,19 +1129,12 @@ def run(args):
         if kv["enc"] != "eq":
             corr_fail.append(dict(tag=tag, why="the bytes asl makes of dasl's statement differ from A6800.assemble", dasl_text=m["text"],
                                   asl_bytes=m["asl"], model_bytes=kv.get("masm")))
-        if kv["bad"] == "1":
-            dist["sweep68_known_bad"] += 1
+        if len(m["bytes"]) == 6 and m["bytes"][2:4] == "00" and ">" in m["text"]:
+            dist["sweep68_ext_page0"] = dist.get("sweep68_ext_page0", 0) + 1
         if kv["rt"] == "ok":
             dist["sweep68_roundtrip_ok"] += 1
-            if kv["thm"] == "fixed":
-                log("6800 sweep: %s is in a known-bad class but round-trips on the real tools (defect repaired?)" % tag)
         else:
-            if kv["bad"] == "1":
-                sig = {0x14: "sweep-6800-14-not-reassemblable", 0x34: "sweep-6800-34-not-reassemblable",
-                       0xc7: "sweep-6800-C7-not-reassemblable"}.get(op, "deco68-extended-zero-page")
-            else:
-                sig = None
-            spec_fail.append(dict(sig=sig, tag=tag, why="6800 instruction %s at %04X: dasl prints `%s`, asl makes %s of it" %
+            spec_fail.append(dict(sig=None, tag=tag, why="6800 instruction %s at %04X: dasl prints `%s`, asl makes %s of it" %
                                   (m["bytes"], m["addr"], m["text"], m["asl"] or "an error"),
                                   image=m["bytes"], start=m["addr"], dasl_text=m["text"], asl_bytes=m["asl"], lower=m["lower"]))
     dist["sweep68_opcodes"] = len(ops68)
@@ -1081,8 +1153,11 @@ def run(args):
         "round trip through the real asl/p2bin/p2hex/dasl (oracle run, not a proof)",
         "-hexfile: real dasl (stdout, stderr incl. `code chunk overlap`, areas) vs Model/Dis/HexLoad.lean (das.c CMD_HexFile) on the text of every hex file; "
         "the memory the areas are judged against comes from the independent Intel-HEX decoder Spec/Hex.lean (C15_hexload_file ties the two together)",
-        "6800 instruction sweep: real dasl text vs M6800.decode, real asl bytes vs A6800.assemble, real round trip vs C15_6800_roundtrip/"
-        "C15_6800_exclusions_exact on every known opcode x operand samples (differential test of the two models the theorems are about)"])
+        "6800 instruction sweep: real dasl text vs M6800.decode, real asl bytes vs A6800.assemble, real round trip vs C15_6800_roundtrip "
+        "on every known opcode x operand samples (differential test of the two models the theorems are about)",
+        "raw images with an instruction / a vector cell at the end of a chunk, across two chunks, an empty chunk, the end of the address space: real dasl vs the "
+        "model of RetrieveCodeFromChunkList (retrieve_isSome_iff is the theorem about it)",
+        "jcn with a forward / backward label at page ends: real asl vs the two passes of I4004.encodeF"])
     res.coverage.update(
         evaluations=len(reqs) + len(sreqs) + len(b68_reqs), distinct_nontrivial=len(distinct),
         rule="random valid 4004/4040 and 6800 programs (blocks ending in jun/bbl resp. bra/jmp/rts/rti, branches and calls to instruction starts inside the image, "
@@ -1091,7 +1166,10 @@ def run(args):
              "writes (it keeps the record order of the code file) or via a hex file written by the harness (record length 1..64, records/address runs ascending, "
              "descending, shuffled, interleaved, one displaced; empty data records; 02/03/04/05 records without memory content), "
              "optionally -h; for -hexfile the model image is built from the file's text by Model/Dis/HexLoad.lean and the SPEC memory by Spec/Hex.lean decodeIhex;  distinct = distinct dasl listings; non-trivial = every listing contains at least one traced instruction; plus one image per known opcode; "
-             "plus (6800) every known opcode x boundary/random operand bytes on a 4-byte raster at $1000 and up to $FFFF (thorough: also page zero and $8000), each one an entry address",
+             "plus (6800) every known opcode x boundary/random operand bytes on a 4-byte raster at $1000 and up to $FFFF (thorough: also page zero and $8000), each one an entry address; "
+             "6800 extended-mode operands in page 0 (`>`) in about every eighth extended statement; 4004 JCN/ISZ in the last two bytes of a page with the target - a forward label, or for half "
+             "of the JCNs a number - in the following page; raw 6800 images with an instruction / a vector cell cut off by the end of a chunk, lying across two chunks, "
+             "an empty chunk, a listing that meets an instruction that does not fit, an instruction through the end of the address space",
         samples=samples, samples_6800_sweep=samples68_ev, distribution=dist, sweep_not_reassemblable=sweep_bad, exhaustive=False)
     res.assumptions = ["re-assembly is done with `asl -cpu 4040` for dasl's CPU 4004 (dasl prints no CPU line and decodes the 4040 extensions) and `-cpu 6800`",
                        "memory of a code file is read by the harness-side reader common.parse_pfile_py",
